@@ -75,6 +75,40 @@ def check_get_timeseries_any_model_horizon(data: List[int], cutoff: Optional[int
     return _gts(data, cutoff, suppress, 2, False, group, via_attr, maxtime)
 
 
+def check_failed_lookup_leaves_results_alone(n: int, n_bad: int, group: int, direct: bool) -> bool:
+    """
+    pre: 1 <= n <= 3
+    pre: 1 <= n_bad <= 2
+    pre: 0 <= group <= 2
+    post: _
+    """
+    # asking for a series that does not exist (a misspelt name) raises KeyError - and changes neither the stored results nor the table rendered from them
+    data = [10 + i for i in range(n)]
+    mod = Model()
+    holder = TimeSeriesHolder('k')
+    holder['x'] = list(data)
+    holder['k'] = [float(i) for i in range(len(data))]
+    gname = ('main', 'step', 'initial')[group]
+    if group == 0:
+        mod.EquationSolver.TimeSeries = holder
+    elif group == 1:
+        mod.EquationSolver.TimeSeriesStepTrace = holder
+    else:
+        mod.EquationSolver.TimeSeriesInitialSteadyState = holder
+    text = holder.GenerateCSVtext()
+    keys = sorted(holder.keys())
+    for i in range(n_bad):
+        try:
+            if direct:
+                holder['xx']
+            else:
+                mod.GetTimeSeries('xx', group_of_series=gname)
+            return False
+        except KeyError:
+            pass
+    return sorted(holder.keys()) == keys and holder.GenerateCSVtext() == text and mod.GetTimeSeries('x', group_of_series=gname) == list(data)
+
+
 def check_get_timeseries_cutoff_attribute(data: List[int], cutoff: Optional[int], suppress: bool, mutate: bool) -> bool:
     """
     pre: 1 <= len(data) <= 4
